@@ -3,8 +3,28 @@ import json
 import os
 import random
 
-from vlib import InfraError, write_ndjson, read_ndjson
+from vlib import InfraError, write_ndjson, read_ndjson, load_known_findings
 import evalfam
+
+
+def attribute(r, g, kind, open_ids):
+    """Open known finding F37: a proof rebuilt from a recording knows nothing about the facts the program states.
+    Specific test: the goal is one of the stated base facts, its predicate also has rules, the mode is 'recorded',
+    and the verdict is the missing complete proof."""
+    if "F37" in open_ids and kind == "NO_COMPLETE_PROOF" and g and g["mode"] == "recorded" and g["proofs"]:
+        stated = {json.dumps(f, sort_keys=True) for f in r["edb"] if any(rl["h"]["p"] == f["p"] for rl in r["rules"])}
+
+        def nodes(n):
+            out = [n]
+            for p in n["premises"]:
+                out += nodes(p)
+            return out
+        # some node of a returned proof expands a stated base fact of a predicate with rules through a rule
+        bad = [n for pr in g["proofs"] for n in nodes(pr) if n["kind"] == "derived" and json.dumps(n["fact"], sort_keys=True) in stated]
+        if bad:
+            return ("F37 BuildFromRecording has no record of the facts a program states: a base fact of a predicate that also has rules, re-derived only from itself, "
+                    "gets a Partial proof, e.g. %s under goal %s in %s" % (evalfam.fact_str(bad[0]["fact"]), evalfam.fact_str(g["goal"]), r["text"].replace("\n", " ")))
+    return None
 
 
 def run_cases(ctx, cases_path, tag):
@@ -19,10 +39,15 @@ def run_cases(ctx, cases_path, tag):
         if r["outcome"] == "ok" and any(g["proofs"] and g["proofs"][0]["kind"] == "derived" for g in r["goals"]):
             ctx.nontrivial.add(r["text"])
     seen = set()
+    open_ids = {k["id"] for k in load_known_findings() if k.get("status") == "open"}
     for m in val["mismatches"]:
         r = results[m["id"]]
         gi = m["variant"]
         g = r["goals"][gi] if 0 <= gi < len(r["goals"]) else None
+        kf = attribute(r, g, m["kind"], open_ids)
+        if kf:
+            ctx.known_finding(kf)
+            continue
         key = (m["kind"], r["text"])
         if key in seen or len(seen) > 8:
             continue
@@ -77,7 +102,7 @@ def check_c15(ctx):
             if gl:
                 ctx.add_sample(dict(program=r["text"], goal=evalfam.fact_str(gl[0]["goal"]), mode=gl[0]["mode"], proof=gl[0]["proofs"][0]), cap=3)
     ctx.assumptions += ["rule nodes are checked against the rules as analysis left them (premise order after reordering), leaves against the evaluated store",
-                        "existence of a complete proof is demanded of provenance.Explain on transform-free programs without built-in predicates; proofs rebuilt from a recording may be flagged Partial",
+                        "existence of a complete proof is demanded on transform-free programs without built-in predicates, of provenance.Explain and of BuildFromRecording alike",
                         "let/do nodes of recorded proofs are not judged (only that the recorder does not change the result)"]
     return ctx.finish("model_checking",
                       "transform-free programs (recursive, mutually recursive, negation, inequalities, binding equalities) generated by TLC; every fact of the evaluated store explained post hoc and from a recording with proof limits 1 and 3; "
